@@ -405,4 +405,45 @@ def rule_small_hole_threshold(P):
     return R
 
 
-RULES = [rule_counter_width, rule_mirror_simplify, rule_swap_loops, rule_image_fire, rule_small_hole_threshold]
+def rule_graph_diagonals(P):
+    """satur_graph keeps the off-diagonal entries of a relation node in `elements` and the diagonal entry of row i in `diagonals[i]`; saturation fires
+    diagonal events from there.  Forward exploration (exploreRow, lazily) and backward exploration (buildTranspose, eagerly) are siblings: whichever
+    function materialises off-diagonal entries from a row scan must record the diagonal entry in the equal-indices arm of the same test"""
+    R = RuleResult("sibling.graph-diagonals", "every satur_graph function that materialises off-diagonal entries (constructs sparse_element(index, U->down(z)) in a row scan) records the diagonal entry: the i==j arm of the diagonal test reaches an element access of `diagonals`")
+    n = 0
+    for f in sorted(P.fns.values(), key=lambda f: (f["file"], f["line"], f["inst"])):
+        if not f.get("cfg") or not f["q"].startswith(M + "satur_graph::"):
+            continue
+        g = Graph(f)
+        mats = [k for k in g.nodes if k.kind == "construct" and k.ev["q"].endswith("sparse_element::sparse_element") and len(k.ev.get("args", [])) == 2 and "down(" in k.ev["args"][1]]
+        if not mats:
+            continue
+        n += 1
+        R.functions.add(f["inst"])
+        R.paths += 1
+        iid = "%s: the diagonal entry is recorded where off-diagonal entries are materialised" % base_name(f["q"]).replace(M, "")
+        ok = False
+        for k in mats:
+            # the test that separates diagonal from off-diagonal entries: the nearest equality/inequality branch dominating the construction
+            tests = [b for b in g.nodes if b.kind == "branch" and b.cond and len(b.succ) == 2 and b.cond.get("op") in ("==", "!=") and
+                     k.id in g.reach([b.id]) and len({x for x in re.findall(r"\w+", b.cond["text"])}) == 2]
+            for b in tests:
+                eq_edge = (0 if b.cond["op"] == "==" else 1)
+                notb = lambda x, b=b: x.id == b.id
+                eq_arm = g.reach([s_ for s_, i in b.succ if i == eq_edge], avoid=notb) - g.reach([s_ for s_, i in b.succ if i != eq_edge], avoid=notb)
+                ne_arm = g.reach([s_ for s_, i in b.succ if i != eq_edge], avoid=notb) - g.reach([s_ for s_, i in b.succ if i == eq_edge], avoid=notb)
+                if k.id not in ne_arm:
+                    continue
+                if any(x.kind == "store" and x.ev["member"].split("::")[-1] == "diagonals" for x in (g.nodes[i] for i in eq_arm)):
+                    ok = True
+        if ok:
+            R.ok(iid, where(f, mats[0].line))
+        else:
+            R.fail(iid, where(f, mats[0].line), Finding(R.rule, f["file"], base_name(f["q"]), "diagonal", "off-diagonal entries are stored but the equal-indices case never touches `diagonals`: events on the diagonal of this level are never fired in this direction of exploration", mats[0].line))
+    if n < 2:
+        raise AnalysisBroken("sibling.graph-diagonals: expected exploreRow and buildTranspose, found %d materialising functions" % n)
+    R.require_floor(2, "materialising functions of satur_graph")
+    return R
+
+
+RULES = [rule_counter_width, rule_mirror_simplify, rule_swap_loops, rule_image_fire, rule_small_hole_threshold, rule_graph_diagonals]
